@@ -193,6 +193,8 @@ type rtr struct {
 	nextIf  uint16
 	errs    []string
 	firstUL map[string]string // underlay name -> kind of the call that instantiated it
+	extIfs  []uint16          // interface ids of the external links that were created
+	hasKey  bool
 }
 
 func newRouter(w *worker, rc config.RouterConfig, reuse bool) *rtr {
@@ -247,8 +249,14 @@ func (r *rtr) apply(c call) {
 		lh := addr.HostIP(netip.MustParseAddrPort(li.Local.Addr).Addr())
 		rh := addr.HostIP(netip.MustParseAddrPort(li.Remote.Addr).Addr())
 		err = r.c.AddExternalInterface(iface.ID(id), li, lh, rh, owned)
+		if err == nil && owned {
+			r.extIfs = append(r.extIfs, id)
+		}
 	case "K":
-		err = r.c.SetKey(localIA, 0, []byte("0123456789abcdef"))
+		err = r.c.SetKey(localIA, 0, hfKey)
+		if err == nil {
+			r.hasKey = true
+		}
 	case "A":
 		err = r.c.AddSvc(localIA, addr.SVC(c.svc), addr.HostIP(c.ip), c.port)
 	case "D":
@@ -309,6 +317,28 @@ func (r *rtr) resolve(raw []byte, tries int) (string, []netip.AddrPort) {
 	set := map[netip.AddrPort]bool{}
 	for i := 0; i < tries; i++ {
 		st, ap := router.VerifCfgResolve(r.c, raw)
+		if st != router.VerifCfgOK {
+			return st, nil
+		}
+		set[ap] = true
+	}
+	var aps []netip.AddrPort
+	for ap := range set {
+		aps = append(aps, ap)
+	}
+	sort.Slice(aps, func(i, j int) bool { return apLess(aps[i], aps[j]) })
+	ss := make([]string, len(aps))
+	for i, ap := range aps {
+		ss[i] = fmt.Sprintf("%s:%d", vlib.Hex(ap.Addr().AsSlice()), ap.Port())
+	}
+	return "ok " + strings.Join(ss, ","), aps
+}
+
+// process is resolve through the whole fast path.
+func (r *rtr) process(raw []byte, ifID uint16, tries int) (string, []netip.AddrPort) {
+	set := map[netip.AddrPort]bool{}
+	for i := 0; i < tries; i++ {
+		st, ap := router.VerifCfgProcess(r.c, raw, ifID)
 		if st != router.VerifCfgOK {
 			return st, nil
 		}
@@ -683,6 +713,22 @@ func opRS(e *sink, r *rtr, ov [2]*int, cs []call, p *pkt, how string) {
 	e.Op(op, ans, tag)
 	e.Sample(map[string]string{"op": trunc(op, 200), "impl": ans})
 	checkC11(e, ov, cs, p, ans, aps, how)
+	// the same packet through the whole fast path (processPkt), received on an external link
+	if r.hasKey && len(r.extIfs) > 0 && hasCall(cs, "I") {
+		ifID := r.extIfs[len(p.l4)%len(r.extIfs)]
+		raw := p.withPath(ifID)
+		var faps []netip.AddrPort
+		fans, _ := vlib.Safe(func() string {
+			a, x := r.process(raw, ifID, tries)
+			faps = x
+			return a
+		})
+		e.Op("fp"+op[2:], fans, "fast/"+tag)
+		p2 := *p
+		p2.raw = raw
+		checkC11(e, ov, cs, &p2, fans, faps, how+", through processPkt received on interface "+
+			strconv.Itoa(int(ifID)))
+	}
 }
 
 func trunc(s string, n int) string {
@@ -1300,5 +1346,20 @@ func main() {
 		fmt.Fprintln(os.Stderr, "rcfg: unknown property", e.Prop)
 		os.Exit(2)
 	}
+	// report the plainest failing input first (a UDP packet, then TCP, then the rest)
+	rank := func(k string) int {
+		switch {
+		case strings.HasPrefix(k, "C11/udp/"):
+			return 0
+		case strings.HasPrefix(k, "C11/tcp/"):
+			return 1
+		case strings.HasPrefix(k, "harness/"):
+			return 9
+		}
+		return 2
+	}
+	sort.SliceStable(e.Violations, func(i, j int) bool {
+		return rank(e.Violations[i].Key) < rank(e.Violations[j].Key)
+	})
 	e.Finish()
 }
